@@ -391,4 +391,175 @@ theorem residual_centre (C : List (List α)) (y w : List α) (m b : α) :
   simp only [residual, List.length_map, List.map_zipWith, List.zipWith_map_left]
   congr 1; funext yi xi; ring
 
+/-! ### the residual invariant of coordinate descent (with `eps = 0`)
+
+`r = y − Xw` is preserved by the loop body, hence by a sweep and by the whole `while`; so when the loop is
+left by its `break`, the reported gap is the duality gap of the returned coefficients. -/
+
+theorem zipWith_add_assoc (a b c : List α) (h1 : a.length = b.length) (h2 : b.length = c.length) :
+    List.zipWith (· + ·) a (List.zipWith (· + ·) b c) = List.zipWith (· + ·) (List.zipWith (· + ·) a b) c := by
+  apply List.ext_getElem (by simp [h1, h2])
+  intro i h _
+  simp [add_assoc]
+
+theorem matVec_set (n : Nat) (C : List (List α)) (w : List α) (j : Nat) (v : α) (cj : List α)
+    (hC : ∀ c ∈ C, c.length = n) (hw : w.length = C.length) (hcj : C[j]? = some cj) :
+    matVec n C (w.set j v)
+      = List.zipWith (· + ·) (matVec n C w) (cj.map ((v - w.getD j 0) * ·)) := by
+  induction C generalizing w j with
+  | nil => simp at hcj
+  | cons c C ih =>
+    cases w with
+    | nil => simp at hw
+    | cons w0 w =>
+      have hc : c.length = n := hC c (by simp)
+      have hC' : ∀ c ∈ C, c.length = n := fun c hc => hC c (by simp [hc])
+      have hw' : w.length = C.length := by simpa using hw
+      have hM : (matVec n C w).length = n := matVec_length n C w hC'
+      cases j with
+      | zero =>
+        simp only [List.getElem?_cons_zero, Option.some.injEq] at hcj
+        subst hcj
+        simp only [List.set_cons_zero, matVec, List.getD_cons_zero]
+        apply List.ext_getElem (by simp [hc, hM])
+        intro i h _
+        simp only [List.getElem_zipWith, List.getElem_map]
+        ring
+      | succ j =>
+        simp only [List.getElem?_cons_succ] at hcj
+        have hcjl : cj.length = n := hC' cj (List.mem_of_getElem? hcj)
+        simp only [List.set_cons_succ, matVec, List.getD_cons_succ]
+        rw [ih w j hC' hw' hcj]
+        apply zipWith_add_assoc
+        · simp [hc, hM]
+        · simp [hM, hcjl]
+
+theorem matVec_replicate_zero (n : Nat) (C : List (List α)) (hC : ∀ c ∈ C, c.length = n) :
+    matVec n C (List.replicate C.length 0) = List.replicate n 0 := by
+  induction C with
+  | nil => simp [matVec]
+  | cons c C ih =>
+    have hc : c.length = n := hC c (by simp)
+    have hC' : ∀ c ∈ C, c.length = n := fun c hc => hC c (by simp [hc])
+    simp only [List.length_cons, List.replicate_succ, matVec, ih hC']
+    apply List.ext_getElem (by simp [hc])
+    intro i h _
+    simp
+
+theorem residual_zero_start (C : List (List α)) (y : List α) (hC : ∀ c ∈ C, c.length = y.length) :
+    residual C y (List.replicate C.length 0) 0 = y := by
+  unfold residual
+  rw [matVec_replicate_zero _ C hC]
+  apply List.ext_getElem (by simp)
+  intro i h _
+  simp
+
+theorem axpy_if_zero (a : α) (x r : List α) (h : x.length = r.length) :
+    (if absS a ≤ 0 then r else axpy a x r) = axpy a x r := by
+  split
+  · rename_i h0
+    rw [absS_eq] at h0
+    have : a = 0 := abs_nonpos_iff.mp h0
+    subst this
+    unfold axpy
+    apply List.ext_getElem (by simp [h])
+    intro i _ _
+    simp
+  · rfl
+
+theorem axpy_if_zero_neg (a : α) (x r : List α) (h : x.length = r.length) :
+    (if absS a ≤ 0 then r else axpy (-a) x r) = axpy (-a) x r := by
+  split
+  · rename_i h0
+    rw [absS_eq] at h0
+    have : a = 0 := abs_nonpos_iff.mp h0
+    subst this
+    unfold axpy
+    apply List.ext_getElem (by simp [h])
+    intro i _ _
+    simp
+  · rfl
+
+/-- the invariant of the descent: the running residual is the residual of the running coefficients -/
+def CdInv (C : List (List α)) (y : List α) (st : CdState α) : Prop :=
+  st.r = residual C y st.w 0 ∧ st.w.length = C.length
+
+theorem cdCoord_inv (contig : Bool) (thr denAdd : α) (C : List (List α)) (y : List α) (st : CdState α)
+    (j : Nat) (cj : List α) (nrm : α) (hC : ∀ c ∈ C, c.length = y.length) (hcj : C[j]? = some cj)
+    (h : CdInv C y st) : CdInv C y (cdCoord contig 0 thr denAdd st j cj nrm) := by
+  obtain ⟨hr, hw⟩ := h
+  unfold cdCoord
+  split
+  · exact ⟨hr, hw⟩
+  · have hcjl : cj.length = y.length := hC cj (List.mem_of_getElem? hcj)
+    have hrl : st.r.length = y.length := by rw [hr]; exact residual_length C y st.w 0 hC
+    have hM : (matVec y.length C st.w).length = y.length := matVec_length _ C st.w hC
+    refine ⟨?_, by simp [hw]⟩
+    simp only []
+    rw [axpy_if_zero _ cj st.r (by rw [hcjl, hrl])]
+    generalize hwj : softThreshold (dotC contig cj (axpy (st.w.getD j 0) cj st.r)) thr (nrm + denAdd) = wj
+    rw [axpy_if_zero_neg _ cj _ (by simp [axpy, hcjl, hrl])]
+    unfold residual
+    rw [matVec_set _ C st.w j wj cj hC hw hcj]
+    rw [hr]
+    unfold residual axpy
+    apply List.ext_getElem (by simp [hM, hcjl])
+    intro i h1 h2
+    simp only [List.getElem_zipWith, List.getElem_map]
+    ring
+
+theorem cdSweepGo_inv (contig : Bool) (thr denAdd : α) (C : List (List α)) (y : List α)
+    (hC : ∀ c ∈ C, c.length = y.length) (Cr : List (List α)) :
+    ∀ (j : Nat) (ns : List α) (st : CdState α), (∀ k, Cr[k]? = C[j + k]?) → CdInv C y st →
+      CdInv C y (cdSweepGo contig 0 thr denAdd j Cr ns st) := by
+  induction Cr with
+  | nil => intro j ns st _ h; simpa [cdSweepGo] using h
+  | cons c Cr ih =>
+    intro j ns st hk h
+    cases ns with
+    | nil => simpa [cdSweepGo] using h
+    | cons nrm ns =>
+      simp only [cdSweepGo]
+      apply ih
+      · intro k
+        have := hk (k + 1)
+        simp only [List.getElem?_cons_succ] at this
+        rw [this]; congr 1; omega
+      · apply cdCoord_inv contig thr denAdd C y st j c nrm hC _ h
+        have := hk 0
+        simpa using this.symm
+
+theorem cdLoop_certificate (contig : Bool) (thr denAdd : α) (C : List (List α)) (norms y : List α)
+    (n tol tolS l1r pen : α) (maxSteps : Nat) (hC : ∀ c ∈ C, c.length = y.length) :
+    ∀ (fuel steps : Nat) (w r : List α) (gap : α) (w' : List α) (g' : α) (s' : Nat),
+      r = residual C y w 0 → w.length = C.length →
+      cdLoop contig 0 thr denAdd C norms y n tol tolS l1r pen maxSteps fuel steps w r gap = (w', g', s') →
+      w'.length = C.length ∧ s' ≤ steps + fuel ∧
+        (s' < steps + fuel → g' = dualityGap contig C y w' (residual C y w' 0) l1r pen n ∧ g' < tolS) := by
+  intro fuel
+  induction fuel with
+  | zero =>
+    intro steps w r gap w' g' s' _ hw h
+    simp only [cdLoop, Prod.mk.injEq] at h
+    obtain ⟨rfl, rfl, rfl⟩ := h
+    exact ⟨hw, le_refl _, fun h => absurd h (lt_irrefl _)⟩
+  | succ fuel ih =>
+    intro steps w r gap w' g' s' hr hw h
+    have hinv : CdInv C y (cdSweep contig 0 thr denAdd C norms w r) := by
+      unfold cdSweep
+      exact cdSweepGo_inv contig thr denAdd C y hC C 0 norms _ (fun k => by simp) ⟨hr, hw⟩
+    simp only [cdLoop] at h
+    generalize cdSweep contig 0 thr denAdd C norms w r = st at hinv h
+    obtain ⟨hsr, hsw⟩ := hinv
+    split at h
+    · split at h
+      · rename_i hg
+        simp only [Prod.mk.injEq] at h
+        obtain ⟨rfl, rfl, rfl⟩ := h
+        refine ⟨hsw, by omega, fun _ => ⟨by rw [hsr], hg⟩⟩
+      · have := ih (steps + 1) st.w st.r _ w' g' s' hsr hsw h
+        refine ⟨this.1, by omega, fun hlt => this.2.2 (by omega)⟩
+    · have := ih (steps + 1) st.w st.r _ w' g' s' hsr hsw h
+      refine ⟨this.1, by omega, fun hlt => this.2.2 (by omega)⟩
+
 end LinfaSpec.LeastSquares
